@@ -50,34 +50,60 @@ def _sha(full):
         return hashlib.sha256(fh.read()).hexdigest()[:16]
 
 
-def _resolved(full):
+def _hid(full, hids):
+    """Identity of what FileHash.__eq__ compares (cc.HashIds), the model's `h`."""
+    if hids is None:
+        return None
+    from stepup.core.hash import FileHash
+    return hids.of(FileHash.unknown().refreshed(full))
+
+
+def _resolved(full, hids=None):
     try:
         st = os.stat(full)
     except OSError:
         return None
     if stat.S_ISDIR(st.st_mode):
         return ["dir"]
-    return ["file", _sha(full), stat.S_IMODE(st.st_mode)]
+    return ["file", _sha(full), stat.S_IMODE(st.st_mode), _hid(full, hids)]
 
 
-def lentry(full):
+def lentry(full, hids=None, rel=None):
+    """lstat entry of one path; `rel`: the path relative to the project root (for the normalised link target)."""
     st = os.lstat(full)
     if stat.S_ISLNK(st.st_mode):
-        return ["link", os.readlink(full), _resolved(full)]
+        target = os.readlink(full)
+        rel = full if rel is None else rel
+        return ["link", target, _resolved(full, hids), os.path.normpath(os.path.join(os.path.dirname(rel), target))]
     if stat.S_ISDIR(st.st_mode):
         return ["dir"]
-    return ["file", _sha(full), stat.S_IMODE(st.st_mode)]
+    return ["file", _sha(full), stat.S_IMODE(st.st_mode), _hid(full, hids)]
 
 
-def lsnap(root="."):
+def lsnap(root=".", hids=None):
     out = {}
     for dirpath, dirnames, filenames in os.walk(root):
         rel = os.path.relpath(dirpath, root)
         if rel == ".":
             dirnames[:] = [d for d in dirnames if d != ".stepup"]
         for name in sorted(dirnames + filenames):
-            out[os.path.normpath(os.path.join(rel, name))] = lentry(os.path.join(dirpath, name))
+            p = os.path.normpath(os.path.join(rel, name))
+            out[p] = lentry(os.path.join(dirpath, name), hids, p)
     return out
+
+
+def model_fs(snap):
+    """The model's view of a snapshot (cc.coq_fs input): path -> 'dir' | hash identity | ["link", target], the
+    target as a normalised path relative to the project root."""
+    out = {}
+    for p, e in snap.items():
+        out[p] = "dir" if e[0] == "dir" else e[3] if e[0] == "file" else ["link", e[3]]
+    return out
+
+
+def model_ok(snap):
+    """Is the tree inside the model's assumptions (A-links)?  Link targets stay inside the project."""
+    return all(not (e[0] == "link" and (e[3].startswith("..") or os.path.isabs(e[3]))) for e in snap.values())
 
 
 def what(ent):
@@ -221,6 +247,7 @@ async def rdf_case(rng, force=None):
     edits afterwards, the real remove_deletable_files.  `force`: tamper for the first queued file."""
     from stepup.core.finalize import remove_deletable_files
     from stepup.core.hash import FileHash
+    hids = cc.HashIds()
     with cc.project_dir():
         async with WF() as w:
             wf = w.wf
@@ -280,15 +307,26 @@ async def rdf_case(rng, force=None):
                 if kind is not None:
                     kind = tamper(rng, p, kind, {"outputs": outputs}, serial)
                 desc.append([p, role, kind])
-            before = lsnap(".")
+            before = lsnap(".", hids)
             queue = {str(k): (None if v is None else "hash") for k, v in wf.to_be_deleted.items()}
+            qfiles, qdirs = cc.dump_queue(wf, hids)
             client, reporter = cc.make_reporter()
             await remove_deletable_files(wf, reporter)
-            after = lsnap(".")
+            after = lsnap(".", hids)
             removed = [d for t, d in client.reports if t == "REMOVE"]
             left = {str(k): str(v) for k, v in wf.to_be_deleted.items()}
     return {"desc": desc, "queue": queue, "before": before, "after": after, "removed_events": removed,
-            "owned": owned, "left": left}
+            "owned": owned, "left": left, "qfiles": qfiles, "qdirs": sorted(qdirs)}
+
+
+def rdf_model_check(c):
+    """Gallina bool: model/Clean.v remove_deletable_files on the same queue and tree gives the same tree and the
+    same REMOVE events in the same order."""
+    files = [d for d in c["removed_events"] if c["before"].get(d, ["?"])[0] != "dir"]
+    dirs = [d for d in c["removed_events"] if c["before"].get(d, ["?"])[0] == "dir"]
+    return (f"let r := remove_deletable_files {cc.coq_queue(c['qfiles'], c['qdirs'])} {cc.coq_fs(model_fs(c['before']))} in "
+            f"fs_match {cc.coq_fs(model_fs(c['after']))} (r_fs r) && strs_eqb {cc.coq_strs(files)} (r_files r) && "
+            f"strs_eqb {cc.coq_strs(dirs)} (r_dirs r)")
 
 
 def rdf_oracle(c):
@@ -343,8 +381,9 @@ class OwnBuilder(cc.Builder):
     """cc.Builder whose steps sometimes make an output as a symbolic link (to an earlier output of the workflow or
     to a static file), and which remembers what exactly StepUp recorded for every path."""
 
-    def __init__(self, w, rng):
+    def __init__(self, w, rng, hids=None):
         super().__init__(w, rng, disk=True)
+        self.hids = hids
         self.recorded = {}      # path -> lstat entry right after the step wrote it
         self.link_prob = 0.25
 
@@ -361,7 +400,7 @@ class OwnBuilder(cc.Builder):
             os.symlink(_rel(self.rng.choice(cands), path), path)
         else:
             p.write_text(content)
-        self.recorded[path] = lentry(path)
+        self.recorded[path] = lentry(path, self.hids)
         return True
 
 
@@ -440,7 +479,7 @@ async def finalize_case(rng, guard, witness=None):
         async with WF(**wfkw) as w:
             Path("plan.py").write_text("#!/usr/bin/env python3\n")
             async with w.db:
-                b = OwnBuilder(w, rng)
+                b = OwnBuilder(w, rng, hids)
                 if witness is not None:
                     made = witness(b)
                 else:
@@ -463,7 +502,7 @@ async def finalize_case(rng, guard, witness=None):
             await cc.update_meta(w)
             async with w.db:
                 res["before_graph"] = cc.dump_graph(w, hids)
-            res["before"] = lsnap(".")
+            res["before"] = lsnap(".", hids)
             client, reporter = cc.make_reporter()
             builder = cc.make_builder(w, reporter, do_remove_outdated=(guard != "no-clean"))
             err = None
@@ -479,7 +518,8 @@ async def finalize_case(rng, guard, witness=None):
             res["queue_left"] = {str(k): str(v) for k, v in w.wf.to_be_deleted.items()}
             async with w.db:
                 res["after_graph"] = cc.dump_graph(w, hids)
-            res["after"] = lsnap(".")
+            res["after"] = lsnap(".", hids)
+            res["before_fs"], res["after_fs"] = model_fs(res["before"]), model_fs(res["after"])   # for cc.finalize_check
             res["edits"] = edits
             res["log"] = b.log
             res["recorded"] = dict(b.recorded)
@@ -547,7 +587,7 @@ async def clean_case(rng):
         async with WF() as w:
             Path("plan.py").write_text("#!/usr/bin/env python3\n")
             async with w.db:
-                b = OwnBuilder(w, rng)
+                b = OwnBuilder(w, rng, hids)
                 made = b.grow(rng.randint(2, 6))
                 b.complete_all(made, fraction=rng.choice([1.0, 0.8]))
                 b.outdate_some(made, prob=0.4)
@@ -555,7 +595,7 @@ async def clean_case(rng):
                 edits = own_edits(b, rng)
             async with w.db:
                 g = cc.dump_graph(w, hids)
-            before = lsnap(".")
+            before = lsnap(".", hids)
             all_, safe, commit = rng.random() < 0.5, rng.random() < 0.7, rng.random() < 0.85
             hand = sorted(q for q, e in edits.items() if e not in ("neighbour", "adopt-static"))
             r = rng.random()
@@ -571,7 +611,7 @@ async def clean_case(rng):
                         clean(w.db, {Path(t) for t in trs}, cc.clean_namespace(all_, safe, commit))
                 except (HashError, OSError) as e:
                     crash = f"{type(e).__name__}: {e}"
-            after = lsnap(".")
+            after = lsnap(".", hids)
             owned, reasons = _owned_from_graph(b, g, edits, selectable=lambda n: all_ or n["det"])
     return {"graph": g, "before": before, "after": after, "args": [all_, safe, commit], "paths": trs, "crash": crash,
             "edits": edits, "log": b.log, "owned": owned, "reasons": reasons}
@@ -586,6 +626,13 @@ def clean_oracle(c):
     out += judge("clean", c["before"], c["after"], c["owned"],
                  why_not=lambda p: c["reasons"].get(p, "never-written-by-a-step"), unsafe=not safe)
     return out
+
+
+def clean_model_check(c):
+    all_, safe, commit = c["args"]
+    return (f"let r := clean_tool {cc.coq_graph(c['graph'])} (mkArgs {cc.coq_bool(all_)} {cc.coq_bool(safe)} "
+            f"{cc.coq_bool(commit)}) {cc.coq_strs(c['paths'])} {cc.coq_fs(model_fs(c['before']))} in "
+            f"fs_match {cc.coq_fs(model_fs(c['after']))} (k_fs r) && Bool.eqb (k_crash r) {cc.coq_bool(c['crash'] is not None)}")
 
 
 def clean_witness(c):
@@ -612,9 +659,15 @@ async def _run_all(ctx, n_rdf, n_fin, n_clean):
     return out
 
 
-def run_families(ctx, n_rdf, n_fin, n_clean, c06=True, c07=False, suffix=""):
-    """Run the three families and report through ctx.add_failure (first witness per signature)."""
-    res = cc.run(_run_all(ctx, n_rdf, n_fin, n_clean), timeout=1800)
+def generate_families(ctx, n_rdf, n_fin, n_clean):
+    return cc.run(_run_all(ctx, n_rdf, n_fin, n_clean), timeout=1800)
+
+
+def run_families(ctx, n_rdf, n_fin, n_clean, c06=True, c07=False, suffix="", res=None):
+    """Run the three families (or judge the cases in `res`) and report through ctx.add_failure (first witness per
+    signature)."""
+    if res is None:
+        res = generate_families(ctx, n_rdf, n_fin, n_clean)
     seen = set()
 
     def emit(name, sig, detail, witness):
